@@ -34,22 +34,30 @@ impl Arena {
         Arena::from_input(name, code, inst.to_json())
     }
 
+    /// network + spec + node map + initial states (empty, flow start, improved flow start)
     pub fn from_input(name: &str, code: &str, input: serde_json::Value) -> Arena {
-        let mut a = Arena::from_input_no_inits(name, code, input);
-        let empty = solution::Schedule::empty(a.nw.clone());
-        let start = solver::min_cost_flow_solver::MinCostFlowSolver::initialize(a.nw.clone()).solve();
-        let improved = start.improve_depots(None);
-        a.inits = vec![("empty", empty), ("min_cost_flow", start), ("min_cost_flow+improve_depots", improved)];
-        a
+        on_fresh_seeded_thread(1, move || {
+            let mut a = Arena::build(name, code, input);
+            let empty = solution::Schedule::empty(a.nw.clone());
+            let start = solver::min_cost_flow_solver::MinCostFlowSolver::initialize(a.nw.clone()).solve();
+            let improved = start.improve_depots(None);
+            a.inits = vec![("empty", empty), ("min_cost_flow", start), ("min_cost_flow+improve_depots", improved)];
+            a
+        })
     }
 
     /// network, spec and node map only (no solver run)
     pub fn load_no_inits(name: &str, code: &str) -> Arena {
         let inst = Inst::from_code(code).expect("arena code");
-        Arena::from_input_no_inits(name, code, inst.to_json())
+        Arena::from_input_no_inits(name, code, inst.to_json(), 1)
     }
 
-    pub fn from_input_no_inits(name: &str, code: &str, input: serde_json::Value) -> Arena {
+    pub fn from_input_no_inits(name: &str, code: &str, input: serde_json::Value, seed: u64) -> Arena {
+        on_fresh_seeded_thread(seed, move || Arena::build(name, code, input))
+    }
+
+    /// must run on a freshly seeded thread (see `on_fresh_seeded_thread`)
+    fn build(name: &str, code: &str, input: serde_json::Value) -> Arena {
         let spec = Spec::from_input(&input).expect("spec");
         let nw = model::json_serialisation::load_rolling_stock_problem_instance_from_json(input.clone());
         let mut viol = vec![];
@@ -134,6 +142,18 @@ impl Arena {
         out.sort_by_key(|c| c.len());
         out
     }
+}
+
+static LOAD_LOCK: std::sync::Mutex<()> = std::sync::Mutex::new(());
+
+/// Run `f` on a new thread whose `RandomState` keys come from the stream freshly seeded with `seed`:
+/// the hash orders inside `f` (defaulted depot indices, vehicle ids of the flow start solution) are
+/// then a function of `seed` and the input only - not of how many hash maps the calling thread
+/// created before (building or parsing the input JSON creates some).
+pub fn on_fresh_seeded_thread<T: Send>(seed: u64, f: impl FnOnce() -> T + Send) -> T {
+    let _g = LOAD_LOCK.lock().unwrap_or_else(|e| e.into_inner());
+    crate::hashseed::reset(seed);
+    std::thread::scope(|s| s.spawn(f).join().expect("seeded thread"))
 }
 
 pub fn vname(v: VehicleIdx) -> String {
